@@ -306,7 +306,7 @@ CHECKS = {
         "with the pinned and repaired axis models (1e-12); independent Fourier integrals on both grids. from_dynamics and the mock "
         "calculator are not modelled; with a supplied tensor only purity, symmetry and axis clauses are checked. The calculator also sets "
         "system._has_system_bath_coupling (an attribute, not H, D or R; noted). Static tie: describes the code as it is (known finding returned_axis_displaced included); the time-domain responses (exp(-g-iwt), _c2g), the omega prefactor and the rate-matrix branch are outside it; the translator plus the stated meanings of flipud/fftshift/slices/.data += are trusted.",
-   design="7/C11", technique="Coq proof (index model over an abstract ring with a root of unity, field-level grid comparison; dipole-strength and exciton-correlation-function symmetries) + static tie of the faithful (Pinned-axis) model: the transform tails, the sum over transitions, _excitonic_coft, bootstrap's axis and the axis re-created by the three calculators are translated on every run and proved equal to Model/C11 (Proofs/C11gen.v, translate_c11.py + translate_c13.py) + in-Coq correspondence with recorded hfft outputs"),
+   design="7/C11", technique="Coq proof (index model over an abstract ring with a root of unity, field-level grid comparison; dipole-strength and exciton-correlation-function symmetries) + static tie of the faithful (Pinned-axis) model: the transform tails, the sum over transitions, _excitonic_coft, bootstrap's axis, the axis re-created by the three calculators and the basis-changing calls of _calculate_aggregate on the Hamiltonian, dipole operator and supplied tensor (gen_transforms = purity_prog, c11_calculation_restores_operators) are translated on every run and proved equal to Model/C11 (Proofs/C11gen.v, translate_c11.py + translate_c13.py) + in-Coq correspondence with recorded hfft outputs"),
  "C14": dict(
    text="Proved in Coq (closed) over Q with numpy.exp as an oracle assumed only to satisfy ex 0 = 1, 0 <= ex x and monotonicity (it MAY "
         "underflow to 0): with the shift by the minimum the partition sum is >= 1 and _thermal_population returns populations in [0,1] "
